@@ -289,7 +289,7 @@ theorem keys_secure_implies {sigValid : SigOracle} {dnskeys : List (Dnskey × Pr
   split at h
   · cases h
   · obtain ⟨k, hk, hv⟩ := keysLoop_secure h
-    exact ⟨k, mem_filterTagCollisions hk, hv⟩
+    exact ⟨k, (List.mem_filter.1 (mem_filterTagCollisions hk)).1, hv⟩
 
 theorem fresh_secure {sigValid : SigOracle} {r : Request}
     (h : (freshVerdict sigValid r).proof = .secure) :
@@ -298,11 +298,15 @@ theorem fresh_secure {sigValid : SigOracle} {r : Request}
         = .ok (.secure, (freshVerdict sigValid r).adjustedTtl) := by
   unfold freshVerdict at h ⊢
   split at h
-  · rename_i p ttl hv
-    simp only at h
-    subst h
-    exact keys_secure_implies hv
   · cases h
+  · rename_i hz
+    simp only [hz]
+    split at h
+    · rename_i p ttl hv
+      simp only at h
+      subst h
+      exact keys_secure_implies hv
+    · cases h
 
 /-! ### the validation cache: provenance of every verdict 
 
@@ -494,10 +498,16 @@ theorem fresh_secure_isOk {sigValid : SigOracle} {r : Request}
     (h : (freshVerdict sigValid r).proof = .secure) : (freshVerdict sigValid r).isOk = true := by
   unfold freshVerdict at h ⊢
   split
-  · rfl
-  · rename_i hn
-    rw [hn] at h
+  · rename_i hz
+    simp only [hz] at h
     cases h
+  · rename_i hz
+    simp only [hz] at h ⊢
+    split
+    · rfl
+    · rename_i hn
+      rw [hn] at h
+      cases h
 
 /-- the authenticated TTL of a fresh Secure verdict is at most `expiration − now` -/
 theorem fresh_secure_ttl {sigValid : SigOracle} {r : Request} (hnow : r.now < M)
